@@ -369,6 +369,9 @@ class SpecEval:
                 a = f"(ite (truthy {asV(ex)}) (seqof {asV(ex)}) (as seq.empty (Seq V)))"
                 b = f"(ite (truthy {asV(pr)}) (seqof {asV(prq)}) (as seq.empty (Seq V)))"
                 return Val(f"(v_list (seq.++ {a} {b}))", kind="list")
+            if f == "obj_dict":
+                x = asV(self.ev(n.args[0]))
+                return Val(self.e.as_dict(x), kind="dict")
             if f == "item_schema":
                 it = self.ev(n.args[0])
                 j = asI(self.ev(n.args[1]))
